@@ -38,8 +38,18 @@ def scenarios(rng, tier):
             if rng.random() < 0.25: s.frame(0, reset(M)); s.frame(0, discover(M, gen=1, esrc=ME))
     return [(s.text(), {})]
 def project(blk, name, meta):
+    # for a Query: sequence number, destination, how many observations are listed and the more flag (which ones, and in
+    # which order, is left to the dictionary oracle: the property does not prescribe it)
     if blk.fault: return ('fault',)
-    if blk.op.startswith('frame'): return tuple(blk.acts)
+    if blk.op.startswith('frame'):
+        d = frame_hdr(blk)
+        if d and d['tos'] == 0 and d['opc'] == 6:
+            r = []
+            for _, _, o in blk.sends():
+                q = qresp_fields(o)
+                r.append((q['seq'], q['edst'], q['n'], q['more']) if q else o)
+            return tuple(r)
+        return send_opcodes(blk)
     return ()
 def oracle(name, ib, mb, meta):
     fails = []; mtu = 1500; own = OWN0; tr = None
@@ -68,8 +78,9 @@ def oracle(name, ib, mb, meta):
                 seen.add(key)
                 if key not in tr.pending: fails.append((i, 'QueryResp lists %s/%s, which was not observed since the last report (invented or reported twice)' % (es.hex(), rs.hex())))
                 elif tr.pending[key] != (t, rs, es, ed): fails.append((i, 'observation %s/%s reported as %r, received as %r' % (es.hex(), rs.hex(), (t, ed.hex()), (tr.pending[key][0], tr.pending[key][3].hex()))))
-            want_n = min(cap, len(tr.pending))
-            if q['n'] != want_n: fails.append((i, 'QueryResp lists %d observations; %d are pending and %d fit' % (q['n'], len(tr.pending), cap)))
+            # how many go into one frame is bounded by the MTU, not prescribed; but an answer must make progress
+            if 34 + 20 * q['n'] > mtu: fails.append((i, 'QueryResp lists %d observations, more than fit into the MTU %d' % (q['n'], mtu)))
+            if q['n'] == 0 and tr.pending and cap > 0: fails.append((i, 'QueryResp lists nothing although %d observations are pending and %d fit' % (len(tr.pending), cap)))
             for key in seen: tr.pending.pop(key, None)
             if q['more'] != (len(tr.pending) > 0):
                 fails.append((i, 'QueryResp more flag is %d although %d observations remain unreported' % (q['more'], len(tr.pending))))
